@@ -138,17 +138,35 @@ func withRepeat(r *Rng, xs []string) []string {
 	return append(out, xs[i+1:]...)
 }
 
+// padWS: now and then a text value carries white space at its ends - what a YAML block scalar
+// (`name: >`) leaves behind, or a hand-written " host" in JSON. The schema takes any string and
+// gopki writes what it is given; a value that is tidied up somewhere on the way is a changed value.
+func padWS(r *Rng, s string) string {
+	if !r.Chance(1, 8) {
+		return s
+	}
+	switch r.Intn(4) {
+	case 0:
+		return s + "\n"
+	case 1:
+		return " " + s
+	case 2:
+		return s + " "
+	}
+	return "\t" + s + " \n"
+}
+
 func genGeneralName(r *Rng, kinds []string) map[string]any {
 	t := Pick(r, kinds)
 	switch t {
 	case "ip":
 		return map[string]any{"type": "ip", "name": fmt.Sprintf("%d.%d.%d.%d", r.Intn(256), r.Intn(256), r.Intn(256), r.Intn(256))}
 	case "dns":
-		return map[string]any{"type": "dns", "name": Pick(r, []string{"example.com", "a.b.example.org", "localhost"})}
+		return map[string]any{"type": "dns", "name": padWS(r, Pick(r, []string{"example.com", "a.b.example.org", "localhost"}))}
 	case "mail":
-		return map[string]any{"type": "mail", "name": Pick(r, []string{"a@example.com", "root@localhost"})}
+		return map[string]any{"type": "mail", "name": padWS(r, Pick(r, []string{"a@example.com", "root@localhost"}))}
 	}
-	return map[string]any{"type": "url", "name": "http://example.org/" + fmt.Sprint(r.Intn(99))}
+	return map[string]any{"type": "url", "name": padWS(r, "http://example.org/"+fmt.Sprint(r.Intn(99)))}
 }
 
 // genExtContent returns a schema-valid extension of the given kind with content.
@@ -200,11 +218,11 @@ func genExt(r *Rng, kind string, allowKeyDerived bool) ExtSpec {
 				var q []any
 				for j := 0; j < r.Range(1, 2); j++ {
 					if r.Bool() {
-						q = append(q, map[string]any{"cps": "http://pki.example.com/cps" + fmt.Sprint(r.Intn(9))})
+						q = append(q, map[string]any{"cps": padWS(r, "http://pki.example.com/cps"+fmt.Sprint(r.Intn(9)))})
 					} else {
-						un := map[string]any{"organization": "Org " + fmt.Sprint(r.Intn(9)), "numbers": []int{r.Intn(9), r.Intn(99)}}
+						un := map[string]any{"organization": padWS(r, "Org "+fmt.Sprint(r.Intn(9))), "numbers": []int{r.Intn(9), r.Intn(99)}}
 						if r.Bool() {
-							un["text"] = "notice " + fmt.Sprint(r.Intn(99))
+							un["text"] = padWS(r, "notice "+fmt.Sprint(r.Intn(99)))
 							if r.Chance(1, 5) {
 								// DisplayText is limited to 200 characters by RFC 5280; gopki writes what it is given
 								un["text"] = strings.Repeat("long notice text ", r.Range(12, 30)) + fmt.Sprint(r.Intn(99))
